@@ -1,6 +1,151 @@
+import GrafeoModel.Model.HnswBuild
 import GrafeoModel.Driver.Proto
-/-! stream `hcon` (stub; replaced by its builder) -/
-open Grafeo Grafeo.Proto
+
+/-! Stream `hcon`: HNSW graph construction / maintenance (`Model/HnswBuild.lean`) and the integer
+parts of the vector quantisers, in the text format of `harness/src/hcon.rs` (which documents the
+argument formats).  Stateless lines: a history is carried inside one line. -/
 namespace DriverHnswBuild
-def handle (_args : List String) : Option Out := none
+open Grafeo Grafeo.Proto Grafeo.Hnsw Grafeo.HnswBuild
+
+abbrev Vec := List Int
+
+def distE (a b : Vec) : Nat := (List.zipWith (fun x y => (x - y).natAbs ^ 2) a b).foldl (· + ·) 0
+def distM (a b : Vec) : Nat := (List.zipWith (fun x y => (x - y).natAbs) a b).foldl (· + ·) 0
+
+/-- `vector_distance(cv, sv) < alpha * candidate.distance`, alpha = num/den, on exact integer keys:
+Manhattan keys are the distances, Euclidean keys their squares (alpha a power of two there) -/
+def mkCfg (metric : String) (num den m mMax efc fuel : Nat) : Option (Cfg Vec) :=
+  if den = 0 then none
+  else if metric == "e" then
+    some { m := m, mMax := mMax, efc := efc, fuel := fuel, dist := distE,
+           covers := fun dcs dcq => decide (den * den * dcs < num * num * dcq), missing := 10 ^ 15 }
+  else if metric == "m" then
+    some { m := m, mMax := mMax, efc := efc, fuel := fuel, dist := distM,
+           covers := fun dcs dcq => decide (den * dcs < num * dcq), missing := 10 ^ 15 }
+  else none
+
+def parseOp (dim : Nat) (t : String) : Option (Op Vec) :=
+  match t.toList with
+  | 'i' :: rest =>
+    match (String.ofList rest).splitOn ":" with
+    | [id, lv, vs] => do
+      let id ← id.toNat?
+      let lv ← lv.toNat?
+      let v ← (vs.splitOn ",").mapM (fun s => s.toInt?)
+      if v.length = dim then pure (Op.ins id lv v) else none
+    | _ => none
+  | 'r' :: rest =>
+    match (String.ofList rest).splitOn ":" with
+    | [id, pick] => do
+      let id ← id.toNat?
+      let pick ← pick.toNat?
+      pure (Op.rem id pick)
+    | _ => none
+  | _ => none
+
+def parseOps (dim : Nat) (s : String) : Option (List (Op Vec)) :=
+  if s == "_" then some [] else (s.splitOn "|").mapM (parseOp dim)
+
+def insVecs : List (Op Vec) → List Vec
+  | [] => []
+  | .ins _ _ v :: r => v :: insVecs r
+  | .rem _ _ :: r => insVecs r
+
+def eraseIdx {α : Type} (l : List α) (i : Nat) : List α := l.take i ++ l.drop (i + 1)
+
+/-- no two inserted vectors are equally far from a third one -/
+def tieFree (dist : Vec → Vec → Nat) (ws : List Vec) : Bool :=
+  (List.range ws.length).all fun i =>
+    match ws[i]? with
+    | none => true
+    | some q => nodupB ((eraseIdx ws i).map (dist q))
+
+def showList (l : List Nat) : String := if l.isEmpty then "_" else natList l
+
+def showDump (ix : Index Vec) : String :=
+  let sorted := sortBy (fun (p : Nat × Node Vec) => p.1) ix.nodes
+  let parts := sorted.map fun p => toString p.1 ++ "=" ++ joinWith "/" (p.2.nbrs.map showList)
+  joinWith ";" ([match ix.entry with | none => "N" | some e => toString e, toString ix.maxLevel] ++ parts)
+
+/-- after the history: a search from every inserted vector (k = 2, ef = ef_construction) must pass
+the executable search specification `checkSound` -/
+def searchesSound (c : Cfg Vec) (ix : Index Vec) (qs : List Vec) : Bool :=
+  qs.all fun q =>
+    let d := dq c ix.nodes q
+    checkSound (keys ix.nodes) d 2 (searchWithEf ix.toGraph d 2 c.efc c.fuel) == "sound"
+
+structure Line where
+  cfg : Cfg Vec
+  ops : List (Op Vec)
+
+def parseLine (args : List String) : Option Line :=
+  match args with
+  | [metric, alpha, dim, m, mMax, efc, seed, ml, ops] => do
+    let dim ← dim.toNat?
+    let m ← m.toNat?
+    let mMax ← mMax.toNat?
+    let efc ← efc.toNat?
+    let _ ← seed.toNat?
+    let _ ← ml.toNat?
+    let (num, den) ← (match alpha.splitOn "/" with
+      | [a, b] => do
+        let a ← a.toNat?
+        let b ← b.toNat?
+        pure (a, b)
+      | _ => none)
+    if dim = 0 || dim > 8 then none else
+    let ops ← parseOps dim ops
+    let c ← mkCfg metric num den m mMax efc (ops.length + 2)
+    pure { cfg := c, ops := ops }
+  | _ => none
+
+def coreVerdict (c : Cfg Vec) (ops : List (Op Vec)) : String :=
+  let ix := run c ops
+  let v := verdictCore c.m c.mMax ix
+  if searchesSound c ix (insVecs ops) then v
+  else if v == "ok" then "viol:s" else v ++ ",s"
+
+/-! quantisation lines -/
+
+def parseBits (s : String) : Option (List Bool) :=
+  if s == "-" then some []
+  else s.toList.mapM fun ch => if ch == '0' then some false else if ch == '1' then some true else none
+
+def handle (args : List String) : Option Out :=
+  match args with
+  | "hist" :: rest => do
+    let l ← parseLine rest
+    if !(tieFree l.cfg.dist (insVecs l.ops)) then pure { model := "ties" }
+    else
+      let ix := run l.cfg l.ops
+      pure { model := coreVerdict l.cfg l.ops ++ "#" ++ verdictShape ix ++ "#" ++ toString ix.len
+                        ++ "#" ++ showDump ix }
+  | "inv" :: rest => do
+    let l ← parseLine rest
+    let v := coreVerdict l.cfg l.ops
+    pure { model := v, spec := "ok", sig := if v == "ok" then "-" else "hcon-invariant" }
+  | ["bq.ham", a, b] => do
+    let a ← parseIntList a
+    let b ← parseIntList b
+    let h := hammingWords (bqQuantize a) (bqQuantize b)
+    let spec := if a.length = b.length then toString (diffBits (signBits a) (signBits b)) else "-"
+    pure { model := natList (bqQuantize a) ++ ";" ++ natList (bqQuantize b) ++ ";" ++ toString h,
+           spec := if spec == "-" then "-" else natList (bqQuantize a) ++ ";" ++ natList (bqQuantize b) ++ ";" ++ spec,
+           sig := if spec == "-" || spec == toString h then "-" else "hcon-hamming" }
+  | ["sq.rt", mn, lg, xs] => do
+    let mn ← mn.toInt?
+    let lg ← lg.toNat?
+    let xs ← parseIntList xs
+    if lg > 6 || xs.isEmpty then none else
+    let s := 2 ^ lg
+    let qs := xs.map (sqQuantize mn s)
+    let back := qs.map (sqDequantize mn s)
+    let inRange := xs.all fun x => decide (mn ≤ x ∧ x ≤ mn + 255 * s)
+    let within := (List.zipWith (fun (x y : Int) => decide (y ≤ x ∧ x < y + s)) xs back).all id
+    let body := natList qs ++ ";" ++ intList back
+    pure { model := body ++ ";" ++ (if within then "within" else "off"),
+           spec := if inRange then body ++ ";within" else "-",
+           sig := if inRange && !within then "hcon-sq-step" else "-" }
+  | _ => none
+
 end DriverHnswBuild
